@@ -69,6 +69,11 @@ def programs(draw):
                 off += 24
         if not dead:
             ops.append(["ev", "OHe", 12])
+        if t == 0 and draw(st.integers(0, 5)) == 0:
+            # big jumbo bursts: the 2 MiB event buffer overflows and the library flushes by itself,
+            # from inside ovni_ev_jumbo_emit or, with the small events around them, from ovni_ev_emit
+            for _ in range(3):
+                ops.insert(draw(st.integers(1, len(ops))), ["jumbo", draw(st.integers(700000, 1040000))])
         more = draw(st.integers(0, 40))
         for _ in range(more):
             ops.append(["ev", "OB.", 12])
@@ -112,6 +117,8 @@ def to_script(case):
                 clk += 3
                 if op[0] == "flush":
                     lines.append("T%d flush" % t)
+                elif op[0] == "jumbo":
+                    lines.append("T%d jumbo %s now %d %d" % (t, rt.hx("OB."), op[1], clk % 251))
                 elif op[1] == "OHx":
                     lines.append("T%d ev %s now %s" % (t, rt.hx("OHx"), T.P("iiQ", t, -1, 0)))
                 else:
